@@ -49,22 +49,7 @@ func (e *env) fail(t *rapid.T, key, f string, a ...interface{}) {
 	vstat.Violation(t, P, key, "%s\nhistory:\n%s", fmt.Sprintf(f, a...), strings.Join(e.hist, "\n"))
 }
 
-func senderOf(tx types.Tx) (common.Address, uint64, bool) {
-	switch v := tx.(type) {
-	case *types.Transaction:
-		f, _ := v.From()
-		return f, v.Nonce(), true
-	case *types.TokenTransaction:
-		f, _ := v.From()
-		return f, v.Nonce(), true
-	case *types.UTXOTransaction:
-		if v.UTXOKind()&types.Ain == types.Ain {
-			f, _ := v.From()
-			return f, v.Nonce(), true
-		}
-	}
-	return common.EmptyAddress, 0, false
-}
+func senderOf(tx types.Tx) (common.Address, uint64, bool) { return chainsim.SenderOf(tx) }
 
 // costOf is what admission debits from the sender for a transaction.
 func costOf(tx types.Tx) *big.Int {
